@@ -12,6 +12,8 @@ from pynenc.util.sqlite_utils import create_sqlite_connection
 
 with NoTracing():
     APPS = {"mem": mk_app("mem"), "sqlite": mk_app("sqlite")}
+    # a second process on the same queue: another app object with the same id on the same database file
+    APPS["sqlite_b"] = mk_app("sqlite", app_id=APPS["sqlite"].app_id, db_path=APPS["sqlite"].broker.sqlite_db_path)
 IDS = ["inv-a", "inv-b", "inv-c"]
 NOPS = 9
 
@@ -41,37 +43,40 @@ def apply(broker, model, op):
         return (broker.count_invocations(), len(model))
     broker.purge(); model.clear(); return (None, None)
 
-def run_seq(kind, ops):
+def run_seq(kind, ops, who=0):
+    """who: bit i = which of the two SQLite broker instances (processes) performs op i; every instance must report the exact length after every op"""
     reset()
-    broker = APPS[kind].broker
+    brokers = [APPS[kind].broker] + ([APPS["sqlite_b"].broker] if kind == "sqlite" else [])
     model = []
-    for op in ops:
+    for i, op in enumerate(ops):
+        broker = brokers[(who >> i) & 1] if len(brokers) > 1 else brokers[0]
         got, exp = apply(broker, model, op)
         if got != exp:
             return False
-        if broker.count_invocations() != len(model):
+        if any(b.count_invocations() != len(model) for b in brokers):
             return False
     # drain: everything routed and not yet retrieved comes out exactly once, in order
     out = []
-    for _ in range(len(model) + 1):
-        out.append(broker.retrieve_invocation())
-    return out == model + [None] and broker.count_invocations() == 0
+    for j in range(len(model) + 1):
+        out.append(brokers[j % len(brokers)].retrieve_invocation())
+    return out == model + [None] and all(b.count_invocations() == 0 for b in brokers)
 
-def run_both(ops):
+def run_both(ops, who=0):
     # the solver decides the op codes (forked into concrete values); the real methods then run concretely
     ops = [pick(o, 0, NOPS - 1) for o in ops]
+    who = [0, 5, 10, 6][pick(who, 0, 3)]      # which instance performs op i: all by A / alternating (two phases) / A B B A
     with NoTracing():
-        return run_seq("mem", ops) and run_seq("sqlite", ops)
+        return run_seq("mem", ops) and run_seq("sqlite", ops, who)
 '''
 
 F3 = r'''
-def seq__K__(n: int, o2: int, o3: int, o4: int) -> bool:
+def seq__K__(n: int, o2: int, o3: int, o4: int, who: int) -> bool:
     """
     pre: 1 <= n <= 4
-    pre: 0 <= o2 < NOPS and 0 <= o3 < NOPS and 0 <= o4 < NOPS
+    pre: 0 <= o2 < NOPS and 0 <= o3 < NOPS and 0 <= o4 < NOPS and 0 <= who <= 3
     post: _
     """
-    return run_both([__K__, o2, o3, o4][:n])
+    return run_both([__K__, o2, o3, o4][:n], who)
 '''
 
 F5 = r'''
@@ -116,7 +121,7 @@ def run(ctx: Ctx) -> None:
     conds = []
     for k in range(9):
         src += F3.replace("__K__", str(k))
-        conds.append(Cond(f"seq{k}", "confirm", 600 if thorough else 240))
+        conds.append(Cond(f"seq{k}", "confirm", 900))
     if thorough:
         for k in range(9):
             for j in range(9):
@@ -131,7 +136,8 @@ def run(ctx: Ctx) -> None:
     ]
     ctx.bounds["sequential"] = (
         "all op sequences of length <= 4 (thorough: <= 5) over 9 op letters "
-        "(route a|b|c, batch [a,b], batch [b,b], batch [], retrieve, count, purge), both brokers, then drain")
+        "(route a|b|c, batch [a,b], batch [b,b], batch [], retrieve, count, purge), both brokers, then drain; on SQLite the ops are spread over TWO broker instances "
+        "on one database (4 assignment patterns) and both must report the exact length after every op")
     ctx.stubs.append("module-level apps reused across paths; queue reset by direct deque.clear()/DELETE (untraced)")
     ctx.assumptions += [
         "SQLite FIFO among messages with identical julianday('now') (same millisecond) relies on the (created_at,rowid) index scan order: observed, not controllable from Python",
